@@ -5,6 +5,7 @@ mod checks;
 mod clients;
 mod cluster;
 mod lin;
+mod logsim;
 mod net;
 mod node;
 mod oracle;
@@ -47,6 +48,10 @@ fn main() {
             let seed: u64 = kv.get("seed").and_then(|s| s.parse().ok()).unwrap_or(1);
             let code = cluster::run_cli(seed, &kv);
             std::process::exit(code);
+        }
+        "logsim" => {
+            let seed: u64 = kv.get("seed").and_then(|s| s.parse().ok()).unwrap_or(1);
+            std::process::exit(logsim::run_cli(seed, &kv));
         }
         _ => {
             eprintln!("usage: dsim cluster --seed N [--plan file] [--out file]");
